@@ -36,6 +36,8 @@ def run(tier, seed):
              'library\'s matcher is a recursive backtracking one (one stack frame per repetition, exponential retries on nested '
              'quantifiers), so a long or adversarial token exhausts the stack or never returns')
     fns = loader_functions(prog)
+    from ..rules import nullstream
+    nns = nullstream.check(rep, prog)
     _regex(rep, prog, fns)
     _finite(rep, prog, fns)
     _erange(rep, prog)
